@@ -1,0 +1,78 @@
+//go:build verif
+
+package object
+
+import (
+	"fmt"
+	"os"
+	"strconv"
+	"strings"
+	"syscall"
+)
+
+// Verification hooks (build tag verif), add-only instrumentation, see /verif/DESIGN.md section 2.6.
+//
+// Crash/fault points: VerifPoint(name) is called between the steps of the save path.
+// VERIF_CRASH_AT=<name>:<k> kills the process (SIGKILL) the k-th time <name> is reached.
+// VERIF_FAIL_AT=<name>:<k> makes VerifFault(name) return an injected ENOSPC error the k-th time.
+// VERIF_TRACE_FD=<n> receives one line "reached <name> <k>" per point, written before acting.
+
+var (
+	verifCounts = map[string]int{}
+	// Register counters (evidence only).
+	VerifRegMade     int64
+	VerifRegReleased int64
+)
+
+func verifSpec(env string) (string, int) {
+	v := os.Getenv(env)
+	if v == "" {
+		return "", 0
+	}
+	i := strings.LastIndexByte(v, ':')
+	if i < 0 {
+		return v, 1
+	}
+	k, err := strconv.Atoi(v[i+1:])
+	if err != nil {
+		return v, 1
+	}
+	return v[:i], k
+}
+
+func verifTrace(name string, k int) {
+	fdStr := os.Getenv("VERIF_TRACE_FD")
+	if fdStr == "" {
+		return
+	}
+	fd, err := strconv.Atoi(fdStr)
+	if err != nil {
+		return
+	}
+	_, _ = syscall.Write(fd, []byte(fmt.Sprintf("reached %s %d\n", name, k)))
+}
+
+// VerifPoint marks an enumerated instant of the save path.
+func VerifPoint(name string) {
+	verifCounts[name]++
+	k := verifCounts[name]
+	verifTrace(name, k)
+	if n, at := verifSpec("VERIF_CRASH_AT"); n == name && at == k {
+		_ = syscall.Kill(syscall.Getpid(), syscall.SIGKILL)
+		select {} // never continue past the crash point.
+	}
+}
+
+// VerifFault returns an injected write error at the chosen occurrence.
+func VerifFault(name string) error {
+	verifCounts[name]++
+	k := verifCounts[name]
+	verifTrace(name, k)
+	if n, at := verifSpec("VERIF_FAIL_AT"); n == name && at == k {
+		return fmt.Errorf("verif injected fault at %s %d: %w", name, k, syscall.ENOSPC)
+	}
+	return nil
+}
+
+func verifRegMade()     { VerifRegMade++ }
+func verifRegReleased() { VerifRegReleased++ }
